@@ -232,6 +232,9 @@ inductive Ev where
   | iterEnd
   | timeout (v : Option Int)
   | delayed (l : List (Nat × Int))
+  /-- probe of the lazy-deletion counter: `_cancellations`, and the number of cancelled entries
+      actually stored in `_pendingTimedCalls` / `_newTimedCalls` -/
+  | counter (canc : Int) (inHeap inStaged : Nat)
 
 /-- the body of a running call: its script, op by op (each op's exception, if any, is caught
     by the script itself and recorded) -/
@@ -310,6 +313,9 @@ def timeout (s : Sys) : Sys × Option Int :=
 def getDelayedCalls (s : Sys) : List (Nat × Int) :=
   ((s.heap ++ s.staged).filter fun id => !(s.call id).cancelled).map fun id => (id, s.sched id)
 
+/-- number of cancelled entries in a list of stored calls -/
+def cancelledIn (s : Sys) (l : List Nat) : Nat := l.countP fun id => (s.call id).cancelled
+
 /-- what the harness does at top level -/
 inductive Top where
   | user (o : Op)
@@ -318,6 +324,8 @@ inductive Top where
   | iterate
   | timeout
   | getDelayedCalls
+  /-- read `_cancellations` and count the cancelled entries stored (white-box probe) -/
+  | counter
 deriving Repr, DecidableEq
 
 def step (s : Sys) : Top → Sys × List Ev
@@ -326,6 +334,7 @@ def step (s : Sys) : Top → Sys × List Ev
   | .iterate => let r := runUntilCurrent s; (r.1, Ev.iterBegin :: r.2 ++ [Ev.iterEnd])
   | .timeout => let r := timeout s; (r.1, [Ev.timeout r.2])
   | .getDelayedCalls => (s, [Ev.delayed (getDelayedCalls s)])
+  | .counter => (s, [Ev.counter s.canc (cancelledIn s s.heap) (cancelledIn s s.staged)])
 
 def exec (s : Sys) : List Top → Sys × List Ev
   | [] => (s, [])
